@@ -218,6 +218,8 @@ ODD_INPUTS = [
     'a\\', '\\ a', '\\\n', '"', "'", '"a"', "'a", '[a="]', "[a=']", '[a="\n"]', '/*', '*/', '/* a', 'a /* b */ /*', '/*/', '/**',
     'a:not(b', 'a:not(b))', ':not(:not(:not(', ':is(:is(:is(a', ':current()', ':current(', ':host()', ':host-context()', ':host(,)',
     ':root()', ':empty()', ':first-child(2)', ':checked()', ':scope()', ':defined()', ':nth-last-child(n of :has(', '\x00', 'a\x00b',
+    '\n    div >\n', 'ul > li,\nol > li,\n', 'a,\n', 'a >\r\n', '\n\n:is(\n', 'a\n>\n', 'a\f+\f', '\n', '\r\n\r\n', 'a[b\n', ':not(\n\n',
+    'p:nth-child(2n\n', '/* c\n', 'a,\n/* c */\n', '\n'*5 + ',',
     '[a=b \u017f]', '[a="b" \u0131]', "[a='b'\u0130]", '[a=b \u212a]', ':nth-child(2\u0274)', ':d\u0131r(ltr)', ':dir(\u017ftr)',
     ':nth-child(2n+1 \u1d0ff p)', '\u017fpan', ':i\u017f(a)', ':nth-child(2n+1 o\u0493 p)', ':n\u0131th-child(2)', ':\u0131s(a)',
     '\ud800', '\U0010ffff', 'a\tb', 'a\x0bb', 'a\x85b', '\ufeffa', ':NOT(A)', ':Nth-Child(EVEN OF P)', '[A=B I]', ':--A',
